@@ -582,7 +582,7 @@ func main() {
 		}
 	}
 	// layer 1
-	nIn := r.Pick(640, 9600)
+	nIn := r.Pick(640, 32000)
 	per := r.Pick(40, 300)
 	var specs []mon.ChildSpec
 	for f := 0; f < nIn; f += per {
@@ -595,7 +595,7 @@ func main() {
 		os.RemoveAll(res.Dir)
 	}
 	// layer 2
-	nSc := r.Pick(12, 120)
+	nSc := r.Pick(12, 300)
 	replicas := r.Pick(3, 8)
 	mon.Parallel(nSc, 8, func(sc int) {
 		bdir := filepath.Join(wd, fmt.Sprintf("b-%d", sc))
